@@ -1519,8 +1519,13 @@ class DistPoisson(DistDiscrete):
         if rate <= 0:
             raise ValueError(f"parameter rate {rate} <= 0")
         self._rate = rate
-        # helper variable to avoid repetitive calculation.
-        self._expl = math.exp(-self._rate)
+        # helper variables to avoid repetitive calculation. exp(-rate)
+        # underflows for large rates; a sum of independent Poisson variables
+        # is Poisson, so a large rate is split into equal parts.
+        self._parts: int = 1
+        if 700.0 < self._rate < math.inf:
+            self._parts = math.ceil(self._rate / 700.0)
+        self._expl = math.exp(-self._rate / self._parts)
         
     def draw(self) -> int:
         """
@@ -1529,13 +1534,15 @@ class DistPoisson(DistDiscrete):
         the given rate. Adapted from Fortran program in Shannon, Systems 
         Simulation, 1975, p. 359.
         """
-        s = 1.0
-        x = -1
-        while True:
-            s *= self._stream.next_float()
-            x += 1
-            if s <= self._expl:
-                break
+        x = 0
+        for _ in range(self._parts):
+            s = 1.0
+            x -= 1
+            while True:
+                s *= self._stream.next_float()
+                x += 1
+                if s <= self._expl:
+                    break
         return x
 
     def probability(self, observation: int) -> float:
